@@ -38,12 +38,12 @@ fn eval(c: &Case) -> (bool, bool, bool, String, bool) {
         proposer: Addr::unchecked("p"),
         deposit: None,
     };
-    let r = std::panic::catch_unwind(std::panic::AssertUnwindSafe(|| {
+    let r = guarded(|| {
         let p = prop.is_passed(&block);
         let r = prop.is_rejected(&block);
         let s = prop.current_status(&block);
         (p, r, s)
-    }));
+    });
     match r {
         Ok((p, r, s)) => {
             let st = match s {
@@ -116,6 +116,11 @@ pub fn grid(max_t: u64, out: &mut Out) {
     }
 }
 
+fn upto(rng: &mut Rng, m: u64) -> u64 {
+    // uniform in 0..=m
+    if m == u64::MAX { rng.next() } else { rng.next() % (m + 1) }
+}
+
 fn rand_u64(rng: &mut Rng) -> u64 {
     match rng.below(8) {
         0 => u64::MAX,
@@ -124,7 +129,7 @@ fn rand_u64(rng: &mut Rng) -> u64 {
         3 => (1u64 << rng.range(1, 63)) - 1 + rng.below(3),
         4 => rng.below(100),
         5 => rng.next() >> rng.range(0, 60),
-        6 => 10u64.pow(rng.range(1, 19) as u32) + rng.below(3) - 1,
+        6 => 10u64.pow(rng.range(1, 19) as u32) - 1 + rng.below(3),
         _ => rng.next(),
     }
 }
@@ -172,7 +177,7 @@ pub fn random_big(rng: &mut Rng, cases: u64, out: &mut Out) {
         let weight = if t == 0 { 1 } else { 1 + rng.next() % t };
         let expired = rng.chance(1, 2);
         // tally: abstain first, then yes around the requirement, the rest split
-        let ab = match rng.below(4) { 0 => 0, 1 => t, _ => if t == 0 { 0 } else { rng.next() % (t + 1) } };
+        let ab = match rng.below(4) { 0 => 0, 1 => t, _ => upto(rng, t) };
         let rest = t - ab;
         let target = match kind {
             "count" => weight,
@@ -183,7 +188,7 @@ pub fn random_big(rng: &mut Rng, cases: u64, out: &mut Out) {
             1 | 2 => target,
             3 => target.saturating_add(1),
             4 => 0,
-            _ => if rest == 0 { 0 } else { rng.next() % (rest + 1) },
+            _ => upto(rng, rest),
         }
         .min(rest);
         let rest2 = rest - y;
@@ -197,11 +202,11 @@ pub fn random_big(rng: &mut Rng, cases: u64, out: &mut Out) {
             2 => ntarget.saturating_sub(1),
             3 => 0,
             4 => rest2,
-            _ => if rest2 == 0 { 0 } else { rng.next() % (rest2 + 1) },
+            _ => upto(rng, rest2),
         }
         .min(rest2);
         let rest3 = rest2 - no;
-        let ve = match rng.below(3) { 0 => 0, 1 => rest3, _ => if rest3 == 0 { 0 } else { rng.next() % (rest3 + 1) } };
+        let ve = match rng.below(3) { 0 => 0, 1 => rest3, _ => upto(rng, rest3) };
         let thr = match kind {
             "count" => Threshold::AbsoluteCount { weight },
             "pct" => Threshold::AbsolutePercentage { percentage: Decimal::new(Uint128::new(p)) },
